@@ -20,6 +20,12 @@ PROPERTY = {
 SLOTS = ['r0', 'n.d.r1', 'l[1]', 'n.k[0]', 'c.x', 'bd.y']
 
 
+def _listed(msg, path):
+    """is `path` named in the error text (as a whole path, whatever the quoting / layout of the message)"""
+    import re
+    return re.search(r'(?<![\w.\[\]])' + re.escape(path) + r'(?![\w.\[\]])', msg) is not None
+
+
 def c14_required(split, a0, a1, a2, a3, a4, a5):
     reset()
     q0, q1, q2, q3, q4, q5 = [bool(split['bits'] & (1 << i)) for i in range(6)]
@@ -100,7 +106,7 @@ def c14_required(split, a0, a1, a2, a3, a4, a5):
             return False
         if targets.LOG:
             return False        # something was evaluated before the error
-        return all(repr(s) in msg for s in survivors) and msg.count('\n') == len(survivors)
+        return all(_listed(msg, s) for s in survivors) and not any(_listed(msg, s) for s in SLOTS if s not in survivors)
     except Exception as e:
         reraise_internal(e)
         note(error='unexpected ' + repr(e)[:300])
@@ -148,7 +154,7 @@ def c14_alias(split, o0, o1, o2, o3, o4):
         msg = str(e)
         note(error=msg[:400])
         wit('refused')
-        return bool(survivors) and all(repr(s_) in msg for s_ in survivors) and msg.count('\n') == len(survivors)
+        return bool(survivors) and all(_listed(msg, s_) for s_ in survivors) and not any(_listed(msg, s_) for s_ in ALIAS_POS if s_ not in survivors)
     except Exception as e:
         reraise_internal(e)
         note(error='unexpected ' + repr(e)[:300])
